@@ -121,6 +121,9 @@ def run_case(n, adj, root, rng, agree, draws, sigma_scale):
     intact = intact and bool(np.array_equal(again, first))
     # a result the caller holds is not touched by later calls (another displacement, same sizes), and a configuration
     # handed over as a view of an earlier result is an input like any other: it is left as it was
+    # the index of the atom as a numpy integer (np.argmax, rng.integers, an element of np.arange): the same atom
+    npi = move_mol_atom(pos, table, atom_index=(np.int64 if n % 2 else np.intp)(root - 1), displ=displ.copy(), sigma_scale=sigma_scale)
+    intact = intact and bool(np.array_equal(npi, first))
     other = move_mol_atom(pos, table, atom_index=root - 1, displ=displ * 2 + 0.0625, sigma_scale=sigma_scale)
     intact = intact and bool(np.array_equal(again, first)) and other is not again
     view = again[:]
